@@ -201,7 +201,7 @@ def run_unit(root, scratch, idx, unit, rlimit=None):
         msg = d.get("message", "")
         if msg.startswith("aborting due to"):
             continue
-        spans = d.get("spans", [])
+        spans = [sp for sp in d.get("spans", []) if os.path.basename(sp.get("file_name", "")) == os.path.basename(path)]
         fn = None
         clause = None
         where = []
@@ -615,6 +615,15 @@ def decide(root, prop, tier, seed, scratch, t0, ev_path):
                 oid = "kani:%s:%s" % (h["id"], re.sub(r"[^A-Za-z0-9_.:#-]+", "-", fc["desc"].strip('"'))[:120])
                 violations.append(dict(oid=oid, backend="kani", harness=h, detail=fc, raw=r["raw"], props=h["props"]))
 
+    if dev:
+        for v in violations:
+            log("---- FAILED", v["oid"])
+            d = v.get("detail", {})
+            if isinstance(d, dict) and d.get("excerpt"):
+                log(d.get("message"), d.get("where"))
+                log(d["excerpt"])
+        for u in undecided:
+            log("---- UNDECIDED", u[:3000])
     # ---- report
     rc = 0
     printed = []
